@@ -164,7 +164,8 @@ def _option_reads(ctx, f):
     for n in f.all_nodes():
         if isinstance(n, ast.Call) and isinstance(n.func, ast.Attribute) and n.func.attr in ('getopt', 'setopt'):
             recv = unparse(n.func.value)
-            if recv.endswith('options') or recv == 'options':
+            g_ = ctx.repo.enclosing_func(n) or f
+            if recv.endswith('options') or recv == 'options' or ctx.canon(n.func.value, g_) == 'E.options':
                 nm = const_str(n.args[0]) if n.args else None
                 out.append((nm, n, n.func.attr))
     return out
@@ -220,9 +221,14 @@ def r35_forced_closure(ctx):
                       'forced value of %s is computed (%s): it may depend on supplied options' % (k, unparse(v) if v is not None else None))
         # reads: the rule's own methods
         reads = []
-        for m in ri.cls.methods.values():
-            for nm_, c, kind in _option_reads(ctx, m):
-                reads.append((nm_, c, m))
+        seen_m = set()
+        for kls in ri.cls.mro():        # the rule's own methods and everything it inherits (MethodWIGM / MethodMeek / ElectionRule helpers)
+            for mname_, m in kls.methods.items():
+                if mname_ in seen_m:
+                    continue            # overridden further down the MRO
+                seen_m.add(mname_)
+                for nm_, c, kind in _option_reads(ctx, m):
+                    reads.append((nm_, c, m))
         # + ArithmeticClass + initialize of the selected class
         acls = repo.cls(_arith_class_for(ctx, const_str(av)) or '?')
         for fn in (arith, acls.methods.get('initialize')):
@@ -272,9 +278,36 @@ def rule_ctor_names(init):
     return None, None
 
 
+def _driver_passes_options_unchanged(ctx, R):
+    """Droop.main hands the caller's option dict to Election as it received it: anything main() writes into it lands in the
+    caller (command-line) layer and outranks the ballot file - a default belongs in the rule's own setopt(default=...)"""
+    main = ctx.repo.funcs.get('Droop.main')
+    need(main is not None, 'R36: Droop.main not found')
+    mk = [c for c in main.own_nodes() if isinstance(c, ast.Call) and unparse(c.func).split('.')[-1] == 'Election' and len(c.args) >= 2]
+    need(len(mk) == 1 and isinstance(mk[0].args[1], ast.Name), 'R36: Election(profile, options) construction not found in Droop.main')
+    oname = mk[0].args[1].id
+    ctx.check(oname in main.params, R, mk[0], main, 'the driver passes the caller\'s options to the election', 'Election(..., %s) with %s a parameter of main()' % (oname, oname),
+              'Election is given `%s`, which is not the option dict main() received' % oname, nontrivial=False)
+    writes = []
+    for n in main.all_nodes():
+        if isinstance(n, ast.Subscript) and isinstance(n.ctx, (ast.Store, ast.Del)) and isinstance(n.value, ast.Name) and n.value.id == oname:
+            writes.append(n)
+        if isinstance(n, ast.Call) and isinstance(n.func, ast.Attribute) and isinstance(n.func.value, ast.Name) and n.func.value.id == oname \
+                and n.func.attr in ('setdefault', 'update', 'pop', 'popitem', 'clear', '__setitem__', '__delitem__'):
+            writes.append(n)
+        if isinstance(n, ast.Assign) and any(isinstance(t, ast.Name) and t.id == oname for t in n.targets):
+            writes.append(n)
+    ctx.check(not writes, R, writes[0] if writes else main.node, main,
+              'the driver does not write into the caller\'s option layer (a value put there outranks the ballot file\'s options)',
+              'no store / setdefault / update on `%s` in Droop.main' % oname,
+              '`%s` writes into the option dict that becomes the command-line layer: it overrides what the ballot file specifies although the caller '
+              'supplied nothing' % (stmt_text(ctx.repo.enclosing_stmt(writes[0])) if writes else ''))
+
+
 def r36_construction_order(ctx):
     R = 'R36'
     repo = ctx.repo
+    _driver_passes_options_unchanged(ctx, R)
     init = repo.func('droop.election.Election.__init__')
     cfg = cfg_of(init)
 
